@@ -24,7 +24,8 @@ import json, os, re, struct, concurrent.futures as cf
 import vlib
 
 FRAME_SIZE, FRAME_SHIFT = 410, 160      # compared with fe_s.frame_size / frame_shift of the running decoder (inventory_tie)
-MAXCHUNK = 32000                        # D9: a stale assert aborts calls longer than MAX_INT16 samples (C06's defect)
+MAXCHUNK = 140000                       # one call may carry a whole recording (D9, the stale MAX_INT16 assert, is repaired)
+LIVEWIN = 250                           # frames feat_s2mfc2feat_live takes per call (LIVEBUFBLOCKSIZE 256 minus two windows)
 
 JSGF = [
     "#JSGF V1.0; grammar g0; public <t> = go forward ten meters | go backward two meters | turn left;",
@@ -35,6 +36,7 @@ JSGF = [
     None,  # pizza.gram, read from the repository
     "#JSGF V1.0; grammar g5; public <t> = [please] (go | move | turn) (forward | backward | left | right) "
     "[(one | two | ten) (meter | meters)];",
+    "#JSGF V1.0; grammar g6; public <t> = (go forward ten meters)+;",
 ]
 ALIGN_TEXTS = ["go forward ten meters", "go backward two meters", "ten meters forward"]
 CMN_TEXTS = ["41,-5.3,-0.12,5.9,-2.1,1.2,-3.6,-1.4,1.9,0.9,-0.6,-1.8,-0.5",
@@ -74,6 +76,10 @@ def materials(c):
     # same length as goforward, different content (a stale lattice / hypothesis cache keyed by frame count would show)
     put("samelen", (fr + pz)[:len(go)])
     put("loud", [max(-32768, min(32767, 3 * v)) for v in go])
+    # three repetitions (836 frames): longer than the live feature window and than the initial cepstral ring several times over
+    put("goforward_x3", go * 3)
+    # digital silence: every frame is skipped by the CMN estimators (C0 < 0)
+    put("zeros", [0] * 16000)
     gram = list(JSGF)
     gram[4] = (data / "pizza.gram").read_text()
     fp_live = d / "feat_params_live.json"
@@ -96,7 +102,7 @@ def materials(c):
 
 def gen_chunks(rng, n, stats, force=None):
     """chunk lengths summing to n, each <= MAXCHUNK"""
-    kind = force or rng.weighted([("fixed", 4), ("random", 4), ("tinyfirst", 4), ("edge", 2), ("big", 2), ("one", 1)])
+    kind = force or rng.weighted([("fixed", 4), ("random", 4), ("tinyfirst", 4), ("edge", 2), ("big", 2), ("one", 1), ("whole", 2)])
     out = []
     if kind == "tinyfirst":
         out.append(min(n, rng.range(1, FRAME_SIZE - 1)))
@@ -106,9 +112,9 @@ def gen_chunks(rng, n, stats, force=None):
     elif kind == "one":
         out.append(min(n, rng.range(1, 3)))
     rest = n - sum(out)
-    step = {"fixed": rng.choice([512, 1024, 2048, 4096]), "big": MAXCHUNK}.get(kind)
+    step = {"fixed": rng.choice([512, 1024, 2048, 4096]), "big": 32000, "whole": MAXCHUNK}.get(kind)
     while rest > 0:
-        if kind in ("fixed", "big"):
+        if kind in ("fixed", "big", "whole"):
             k = step
         elif kind in ("random", "tinyfirst", "edge", "one"):
             k = rng.range(1, 6000) if rng.chance(0.8) else rng.range(1, 300)
@@ -120,7 +126,9 @@ def gen_chunks(rng, n, stats, force=None):
 
 
 def gen_utt(rng, mat, stats, target=False):
-    a = rng.below(len(mat["audio"]))
+    # the 836-frame recording is expensive under ASan: mostly left to the ring-growth scenarios
+    names = [x["name"] for x in mat["audio"]]
+    a = names.index("goforward_x3") if rng.chance(0.04) else rng.choice([i for i, nm in enumerate(names) if nm != "goforward_x3"])
     n = mat["audio"][a]["n"]
     mode = rng.weighted([("stream", 6), ("batch", 3), ("buffered", 2), ("mixed", 1)])
     if rng.chance(0.25):
@@ -165,7 +173,35 @@ def gen_gram(rng, mat, stats):
     return {"kind": "align", "text": rng.choice(ALIGN_TEXTS)}
 
 
-def gen_history(rng, mat, stats):
+def ring_growth_scenario(rng, mat, stats, h):
+    """a long full-utterance (batch) utterance first — it enlarges the cepstral ring for good — then a target utterance
+    streamed in calls that carry more frames than the live feature window takes at once"""
+    longs = [i for i, a in enumerate(mat["audio"]) if nframes(a["n"]) > LIVEWIN + 20]
+    a = rng.choice(longs)
+    n = mat["audio"][a]["n"]
+    batch = {"a": a, "off": 0, "len": n, "mode": "batch", "fmt": "i", "partial": [], "flags": rng.choice([0, 1]),
+             "chunks": [n], "chunking": "batch", "nosearch": [0]}
+    h["items"].insert(rng.range(1, len(h["items"])), {"op": "utt", "utt": batch})
+    t = h["target"]["utt"]
+    ta = rng.choice([i for i in longs if mat["audio"][i]["n"] <= n])
+    tn = mat["audio"][ta]["n"]
+    t.update({"a": ta, "off": 0, "len": tn, "mode": "stream", "partial": [], "chunking": "whole"})
+    first = rng.choice([0, 0, rng.range(1, FRAME_SIZE - 1), 2048])
+    t["chunks"] = ([first] if first else []) + [tn - first]
+    t["nosearch"] = [0] * len(t["chunks"])
+    h["target"]["no_cmn_reset"] = False
+    stats["ring_growth_scenarios"] = stats.get("ring_growth_scenarios", 0) + 1
+    return h
+
+
+def gen_history(rng, mat, stats, ring_growth=False):
+    h = gen_history_plain(rng, mat, stats)
+    if ring_growth or rng.chance(0.12):
+        h = ring_growth_scenario(rng, mat, stats, h)
+    return h
+
+
+def gen_history_plain(rng, mat, stats):
     cfg = rng.weighted([("batchcmn", 6), ("livecmn", 4), ("allsen", 2), ("narrow", 2), ("maxhmm", 1), ("ds2", 1)])
     stats["configs"][cfg] = stats["configs"].get(cfg, 0) + 1
     tgram = gen_gram(rng, mat, stats)
@@ -245,7 +281,10 @@ def history_ops(h, mat, d=0, poison=True):
         else:
             ops += utt_ops(d, it["utt"])
     t = h["target"]
-    ops += gram_ops(d, t["g"], mat)
+    grams = [it["g"] for it in h["items"] if it["op"] == "gram"]
+    if not grams or grams[-1] != t["g"]:
+        # (when the target's grammar is already active the search module is kept: its caches must not leak either)
+        ops += gram_ops(d, t["g"], mat)
     if not t["no_cmn_reset"]:
         ops.append(f"setcmn {d} {t['cmn']}")
     mark = len(ops)
@@ -690,10 +729,9 @@ def check(c):
                   "the error callback / log level (err.c globals) and the dither PRNG (genrand.c globals) are shared by all decoders "
                   "and are excluded by configuration (loglevel fixed, dither off)"]
     c.assumptions += ["dither is off (default) and logging goes nowhere: the classified globals err_cb/err_user_data/err_level and mt/mti are not exercised",
-                      "calls carry at most 32000 samples (D9: stale assert in fe_interface.c aborts longer calls in assert-enabled builds; C06's defect)",
+                      "calls carry at most 140000 samples (the longest recording of the pool in one call)",
                       "operations follow the documented protocol (start, process*, end, queries; grammar and CMN changes between utterances; "
                       "a batch utterance is one full_utt call); out-of-order calls are C09's subject",
-                      "exactly-zero audio is not generated (D15, C18's defect)",
                       "only the shipped PTM acoustic model (en-us) is exercised; the s2_semi / ms scorers are classified by reading"]
     lean_ok = c.lean_obligations()
     binp = harness(c)
@@ -726,7 +764,7 @@ def check(c):
         nhist = npair = 0
     distinct, ok = set(), True
     for i in range(nhist):
-        h = gen_history(rng, mat, stats)
+        h = gen_history(rng, mat, stats, ring_growth=(i % 8 == 0))
         distinct.add(json.dumps(h, sort_keys=True))
         if i < 2:
             c.samples.append({"config": h["cfg"], "history": [it["op"] + (":" + it["utt"]["mode"] if it["op"] == "utt" else "") for it in h["items"]],
@@ -835,6 +873,9 @@ def witness_class(res, h):
         return k + "/batch-utterance-after-streaming-with-batch-cmn-configured"
     if t["mode"] != "batch" and t["chunks"] and (t["chunks"][0] < FRAME_SIZE or t["len"] < FRAME_SIZE):
         return k + "/first-call-shorter-than-an-analysis-window"
+    big_batch = any(it["op"] == "utt" and it["utt"]["mode"] == "batch" and nframes(it["utt"]["len"]) > LIVEWIN for it in h["items"])
+    if t["mode"] != "batch" and big_batch and any(nframes(c) > LIVEWIN for c in t["chunks"]):
+        return k + "/streaming-call-larger-than-the-live-feature-window-after-a-larger-batch-utterance"
     ring = FRAME_SIZE + 127 * FRAME_SHIFT        # samples of 128 frames = the initial cepstral ring
     batch_before = any(it["op"] == "utt" and it["utt"]["mode"] == "batch" and it["utt"]["len"] > ring for it in h["items"])
     if t["mode"] != "batch" and batch_before and nframes(t["len"]) > 300 and any(c > ring for c in t["chunks"]):
